@@ -162,10 +162,18 @@ class Shadow:
         for c in cands:
             k = c['keys']
             ks = (c['suite']['integ'], k['sk_ai'], k['sk_ei']) if from_init else (c['suite']['integ'], k['sk_ar'], k['sk_er'])
+            if not ikecrypto.sk_verify(data, ks[0], ks[1]):
+                continue
             try:
                 opened = ikecrypto.sk_open(data, *ks)
-            except ikecrypto.NotProtected:
-                continue
+            except Exception as ex:
+                # the ICV is the truncated HMAC under the derived SK_a, so a key holder sent this, yet what is under the IV and SK_e is no payload chain
+                self._cnt('protected.authentic_but_undecodable')
+                self.problems.append(('sk-authentic-datagram-does-not-decrypt-to-a-payload-chain', {'n': n, 'error': repr(ex)[:120], 'data': data[:96]}))
+                if rec.resolved is None:
+                    rec.resolved = c
+                    self._resolved(rec)
+                return
             if rec.resolved is None:
                 rec.resolved = c
                 self._resolved(rec)
